@@ -52,6 +52,7 @@ def fixtures():
     add("frame", (4, 5), lambda: urwid.Frame(urwid.Filler(P([L("a"), L("b")])), header=L("h"), footer=L("f", False)))
     add("frame(cols-header,listbox)", (6, 5), lambda: urwid.Frame(urwid.ListBox(urwid.SimpleFocusListWalker([L("a"), L("b")])), header=C([L("h"), L("i")]), footer=L("f")))
     add("frame-tall-header", (4, 4), lambda: urwid.Frame(urwid.Filler(P([L("a"), L("b")])), header=P([L("h"), L("i"), L("j")]), footer=L("f")))
+    add("frame-tall-footer", (4, 4), lambda: urwid.Frame(urwid.Filler(P([L("a"), L("b")])), header=L("h"), footer=P([L("f"), L("g"), L("k")])))  # the footer is only partly visible
     add("frame-header-fills", (4, 3), lambda: urwid.Frame(urwid.Filler(L("a")), header=P([L("h"), L("i"), L("j")])))
     add("overlay", (6, 4), lambda: urwid.Overlay(urwid.Filler(P([L("a"), L("b")])), urwid.Filler(L("z")), "center", 3, "middle", 2))
     add("listbox", (6, 3), lambda: urwid.ListBox(urwid.SimpleFocusListWalker([L("a"), L("t", False), C([L("b"), L("c")]), L("d")])))
